@@ -54,13 +54,17 @@ def cfg(c, name, text):
     return p
 
 
-def probe_safe_settype():
+def probe_start():
     """does ScmpUnknownMessageView::set_message_type compile as a SAFE fn? (build failure = it is unsafe)"""
-    p = subprocess.run(["cargo", "build", "--offline", "-q", "-p", "vh-sciparse", "--bin", "wirelayout_probe"],
-                       cwd=HARNESS, stdout=subprocess.PIPE, stderr=subprocess.STDOUT, text=True)
+    return subprocess.Popen(["cargo", "build", "--offline", "-q", "-p", "vh-sciparse", "--bin", "wirelayout_probe"],
+                            cwd=HARNESS, stdout=subprocess.PIPE, stderr=subprocess.STDOUT, text=True)
+
+
+def probe_result(p):
+    out, _ = p.communicate()
     if p.returncode == 0:
         return True
-    if "E0308" in p.stdout or "mismatched types" in p.stdout or "unsafe" in p.stdout:
+    if "E0308" in out or "mismatched types" in out or "unsafe" in out:
         return False
     return None
 
@@ -135,15 +139,13 @@ def run(c):
     thorough = c.tier == "thorough"
     bins = {"dev": c.cargo_build("vh-sciparse", bin="wirelayout"),
             "release": c.cargo_build("vh-sciparse", bin="wirelayout", release=True)}
-    safe = probe_safe_settype()
-    env = {"WIRELAYOUT_UNK_SETTYPE_SAFE": "1" if safe else "0"}
-    if safe is None:
-        c.drift("compile probe for ScmpUnknownMessageView::set_message_type failed for an unexpected reason; the setter is left out of the catalogue")
+    probe = probe_start()      # runs while TLC enumerates
     if c.replay:
+        probe_result(probe)
         return single_replay(c, bins)
     c.assumptions += [
         "memory accesses are observed by PROT_NONE guard pages directly before/after exact-size copies of the bytes a view reported (TLC cannot observe memory); reads inside the view's own bytes are by definition allowed",
-        "the catalogue of safe functions is the hand-written list in harness/vh-sciparse/src/bin/wirelayout.rs (every pub fn of the *View types callable without unsafe at the pinned commit); ScmpUnknownMessageView::set_message_type is in the list only while a compile probe shows it is a safe fn (currently: %s)" % safe,
+        "the catalogue of safe functions is the hand-written list in harness/vh-sciparse/src/bin/wirelayout.rs (every pub fn of the *View types callable without unsafe at the pinned commit); ScmpUnknownMessageView::set_message_type is in the list only while a compile probe shows it is a safe fn",
         "sequences: all accessors after no mutator on every accepted vector; after each single safe mutator (quick: on vectors not flagged `pairs` every 8th mutator, rotating with the vector index; thorough: all); after every ordered pair of safe mutators on the vectors flagged `pairs` (quick: a 300-sequence stride sample of the pair space per view and vector, rotating with the vector index; thorough: all pairs)",
         "exhaustive over the factored product of MC_WireLayout, not over all byte strings; both cargo profiles (dev: debug assertions + overflow checks, release: none)",
     ]
@@ -164,6 +166,12 @@ def run(c):
     if "InvSafe" not in r0.violated:
         c.fail_tool("oracle self-check failed: the layout without the whole-header size check no longer violates InvSafe")
     c.cov["exhaustive"] = True
+
+    safe = probe_result(probe)
+    env = {"WIRELAYOUT_UNK_SETTYPE_SAFE": "1" if safe else "0"}
+    c.assumptions.append("compile probe: ScmpUnknownMessageView::set_message_type is a safe fn: %s" % safe)
+    if safe is None:
+        c.drift("compile probe for ScmpUnknownMessageView::set_message_type failed for an unexpected reason; the setter is left out of the catalogue")
 
     # ---- 2. replay in both profiles ----------------------------------------------------------------
     inp = os.path.join(c.work, "vectors.ndjson")
